@@ -22,7 +22,7 @@ Pipeline
      cannot raise a false alarm.
   3. record: displayed forms of boundary + seeded random values of every type (parse(show(v)) == v is
      checked on the real output), single-character insert/delete/replace edits of them (seeded subset
-     in quick, far more in thorough), every string of length <= 2 and a sample of length 3-4 over a 28-character
+     in quick, far more in thorough), every string of length <= 2 and a sample of length 3-4 over a 30-character
      alphabet.
   4. trace validation (Trace_AddrText): TLC evaluates G and I on every recorded line; the P-verdict
      is taken on the REAL outcome: Panic / Unsound (accepted, not in the grammar) / Value (accepted
